@@ -34,7 +34,7 @@ RULE = (
 )
 ASSUMPTIONS = ["helper parameters annotated Any (eq/ne/gt/ge/lt/le value, call_method args) are exercised as constants only"]
 FLOORS = {"bracketings_compared": (1500, 30000), "identity_checks": (400, 8000), "split_checks": (1500, 30000), "rshift_checks": (400, 8000),
-          "param_key_checks": (400, 8000), "reuse_checks": (300, 6000), "helper_cases": (263, 263), "helper_cases_with_option_argument": (144, 144), "helpers_covered": (60, 60), "helper_reapplications": (254, 254), "pipeline_history_steps": (3000, 60000), "stateful_step_evaluations": (36, 36), "templated_parameter_checks": (150, 3000)}
+          "param_key_checks": (400, 8000), "reuse_checks": (300, 6000), "helper_cases": (263, 263), "helper_cases_with_option_argument": (144, 144), "helpers_covered": (60, 60), "helper_reapplications": (254, 254), "pipeline_history_steps": (3000, 60000), "stateful_step_evaluations": (36, 36), "templated_parameter_checks": (150, 3000), "mutable_constant_parameter_evaluations": (20, 20)}
 SHARDS_QUICK = 2
 
 
@@ -570,6 +570,40 @@ def stateful_steps(ctx):
         ctx.nontrivial(spec_hash(["stateful-step", name]))
 
 
+def mutable_constant_parameters(ctx):
+    """A decorated step whose parameter default is a plain mutable constant (a list, a dict) that the step - or the
+    caller, through the returned value - edits: the parameter is produced anew for every evaluation, so the laws hold
+    whatever was evaluated before, under any option dictionary."""
+    @pipeline_step
+    def collect(x, seen=[], limits={"max": 1}, scale=Option("AMOUNT", 1)):  # noqa: B006
+        seen.append(x)
+        limits["max"] += 1
+        return ("collect", list(seen), dict(limits), scale)
+
+    @pipeline_step
+    def hand_out(x, box=[0]):  # noqa: B006
+        return box  # the caller receives the parameter object itself and edits it
+
+    q = Pipeline() + (lambda v: ("q", v))
+    p = Pipeline() + collect
+    W = {"family": "mutable-constant-parameters"}
+    for rnd, o in enumerate([{}, {"AMOUNT": 2}, {}, {"AMOUNT": 2}]):
+        want = ("q", ("collect", ["x"], {"max": 2}, o.get("AMOUNT", 1)))
+        outs = [(p + q).transform("x", dict(o)), q.transform(p.transform("x", dict(o)), dict(o)), (Option("X0", "x") >> (p + q)).evaluate(dict(o)), ((Pipeline() + collect) + q).transform("x", dict(o))]
+        ctx.evaluations += 4
+        ctx.count("mutable_constant_parameter_evaluations", 4)
+        if any(v != want for v in outs):
+            ctx.violation("parameter-not-evaluated-anew", f"round {rnd} under {o}: (p + q).transform / q.transform(p.transform) / source >> pipeline / re-bracketed give {outs}; every one should be {want}", W)
+            return
+        got = (Pipeline() + hand_out).transform("x", dict(o))
+        ctx.count("mutable_constant_parameter_evaluations")
+        if got != [0]:
+            ctx.violation("parameter-not-evaluated-anew", f"round {rnd}: a step returning its constant parameter gave {got!r} (an earlier caller's edit is visible); expected [0]", W)
+            return
+        got.append("edited-by-the-caller")
+    ctx.nontrivial(spec_hash(["mutable-constant-parameters"]))
+
+
 def pipeline_history(ctx, names, r, case):
     """Step parameters are read from the options of EACH evaluation: one long-lived pipeline (and source >> pipeline)
     over a hostile history - a dictionary equal to the previous one but differently typed, the same dictionary object
@@ -629,6 +663,7 @@ def run(ctx):
         helpers(ctx)
         read_at_evaluation_time(ctx)
         stateful_steps(ctx)
+        mutable_constant_parameters(ctx)
     k = 0
     max_exh = 3 if ctx.quick else 4
     for n in range(0, max_exh + 1):
@@ -647,7 +682,9 @@ def run(ctx):
 
 def replay(ctx, rep):
     w = rep["witness"]
-    if w.get("family") == "stateful-steps":
+    if w.get("family") == "mutable-constant-parameters":
+        mutable_constant_parameters(ctx)
+    elif w.get("family") == "stateful-steps":
         stateful_steps(ctx)
     elif w.get("family") == "pipeline-history":
         ctx.shard, ctx.shards = w.get("shard", 0), w.get("shards", 1)
